@@ -62,6 +62,21 @@ pub struct Model<K> {
     _k: PhantomData<K>,
 }
 
+impl<K> Clone for Model<K> {
+    fn clone(&self) -> Self {
+        Model {
+            kv: self.kv.clone(),
+            undo: self.undo.clone(),
+            g: self.g,
+            rollback_enabled: self.rollback_enabled,
+            max_log: self.max_log,
+            seqn: self.seqn,
+            history: self.history.clone(),
+            _k: PhantomData,
+        }
+    }
+}
+
 impl<K: HashKind> Model<K> {
     pub fn new(rollback_enabled: bool, max_log: usize) -> Self {
         Model {
